@@ -36,6 +36,8 @@ INTS = [0, 7, 1990, -5, "0", "7", "1990", "007", "-5", "1e3", "12a", "١٢", "½
 KEYS = ["year", "month", "pages", "title", "Year", "volume"]
 NUMERIC = {"year", "month", "volume", "number", "pages", "edition", "chapter", "issue"}
 OPTIONS = [(d, r, i) for d in ("{", '"') for r in (True, False) for i in (True, False)]
+# the two switches given as 0 / 1 (what a configuration file or an environment variable yields): read by their truth value
+OPTIONS += [("{", 0, 0), ('"', 1, 0), ("{", 0, 1), ("{", 1, 1)]
 
 CONTEXTS = [("@article{k, f = ", ", g = {z}}"), ("@article{k, f = ", "}"), ("@string{s = ", "}")]
 
